@@ -179,7 +179,8 @@ class Report:
             for t in incomplete:
                 p(f"ANALYSIS-INCOMPLETE property={self.pid} {t}")
             status = 2
-        if violations and status == 0:
+        # a refutation is a positive derivation: it is reported even when another rule family fell below its floor
+        if violations:
             os.makedirs(replay_dir, exist_ok=True)
             # stale replay files of this property are removed first
             for f in os.listdir(replay_dir):
@@ -197,9 +198,6 @@ class Report:
                     p(f"    derivation: {txt[:600]}")
                 p(f"VIOLATION property={self.pid} replay={path}")
             status = 1
-        elif violations:
-            for ob in violations:
-                p(f"(suppressed while incomplete) REFUTED {ob.key}: {ob.statement}")
         wall = time.time() - self.t0
         cov = {
             "explanation": self.explanation or f"static analysis of {self.root}/cola; obligations per rule listed in by_rule",
@@ -234,7 +232,7 @@ class Report:
             "coverage": cov,
             "assumptions": self.assumptions,
             "wall_s": round(wall, 3),
-            "violations": len(violations) if status != 2 else 0,
+            "violations": len(violations),
             "status": {0: "held", 1: "violation", 2: "analysis-incomplete"}[status],
         }
         os.makedirs(self.evidence_dir, exist_ok=True)
